@@ -177,7 +177,9 @@ CLAIMED = {
              "fetch/assign contracts on the transcription and prints every sequence with expected return, stored and "
              "`expected` values; each sequence is executed on yaclib_std::atomic<T> in the FIBER re-implementation and the "
              "THREAD wrapper (forced/forbidden spurious weak-CAS failures through the hook) and on std::atomic<T> itself.",
-        note="one thread; 12 types; floating types with integer-valued operands; atomic_flag/fences not enumerated; trusted: "
+        note="one thread; 12 types + atomic_flag (test_and_set / clear) with atomic_thread_fence / atomic_signal_fence in the "
+             "sequences; floating types with integer-valued operands; atomic_flag::test and wait / notify (futex builds) "
+             "not enumerated; trusted: "
              "TLC, harness/sc_atomic.cpp", design="7/C19",
         technique="TLA+ reference semantics; TLC-enumerated operation sequences replayed on both backends"),
     "C20": dict(
